@@ -454,3 +454,126 @@ func RunHiddenLock(variant int, ruleset, scheme string, rng *vbase.Rng, r *vbase
 	_ = allInView
 	return done()
 }
+
+// RunSelectiveFetch: n=4, replica 4 Byzantine and leader of every view. Honest replica 2 is cut off from the
+// other honest replicas and misses X@1 <- P@2 <- Q@3. The leader then shows R@4 (QC(Q)) to replicas 1 and 2 and
+// answers replica 2's block requests for Q and P but not for X: replica 2 votes for R while it cannot resolve the
+// third block of the chain. It must nevertheless be locked on P afterwards; if it is not, the leader gets a
+// conflicting child C@6 of X certified by {4,2,3} after replica 1 has committed X,P.
+func RunSelectiveFetch(ruleset, scheme string, rng *vbase.Rng, r *vbase.Result, enable func(*Monitors)) *Cluster {
+	cfg := Config{N: 4, Ruleset: ruleset, Scheme: scheme, Cache: 0, Leader: "script", Sched: []hotstuff.ID{4}, BatchSize: 1,
+		Profile: "directed:selective-fetch", ByzRules: map[hotstuff.ID]string{}, Scripted: []hotstuff.ID{4}, Label: "selective-fetch"}
+	c, err := NewCluster(cfg, rng, r)
+	if err != nil {
+		r.Inconclusive("cannot build selective-fetch cluster: " + err.Error())
+		return nil
+	}
+	enable(c.Mon)
+	byz := c.Actors[3]
+	H1, H2, H3 := c.Actors[0], c.Actors[1], c.Actors[2]
+	st := byz.Byz
+	gen := hotstuff.GetGenesis()
+	c.FaultSteps++
+	c.Cut = map[[2]int]bool{{H2.Idx, H1.Idx}: true, {H2.Idx, H3.Idx}: true}
+	c.CutLoss = true
+	dbg := os.Getenv("VERIF_DEBUG_HL") != ""
+	phase := func(name string) {
+		if dbg {
+			fmt.Fprintf(os.Stderr, "PHASE %s:", name)
+			for _, a := range c.Actors[:3] {
+				fmt.Fprintf(os.Stderr, " %s[v=%d hqc=%d c=%d]", a.Name(), a.Node.VS.View(), a.Node.VS.HighQC().View(), len(c.Mon.commits[a.Idx]))
+			}
+			fmt.Fprintln(os.Stderr)
+		}
+	}
+	done := func() *Cluster { phase("done"); c.Mon.atEnd(); c.Close(); return c }
+	propose := func(b *hotstuff.Block, to ...*Actor) {
+		c.registerByzBlock(byz, b)
+		c.trace(TraceEntry{Kind: "byz", From: byz.Name(), What: "propose", View: uint64(b.View())})
+		for _, o := range to {
+			c.enqueue(byz, o, hotstuff.ProposeMsg{ID: byz.ID, Block: b})
+		}
+	}
+	certified := func(b *hotstuff.Block) func() bool {
+		return func() bool { _, ok := c.byzQC(byz, b); return ok }
+	}
+	c.Start()
+	c.Step = 1
+	// views 1..3: X <- P <- Q, shown to replicas 1 and 3 only
+	parentQC := hotstuff.NewQuorumCert(nil, 0, gen.Hash())
+	parent := gen
+	var chain []*hotstuff.Block
+	var qcs []hotstuff.QuorumCert
+	for v := 1; v <= 3; v++ {
+		b := hotstuff.NewBlock(parent.Hash(), parentQC, c.byzBatch(byz), hotstuff.View(v), byz.ID)
+		propose(b, H1, H3)
+		if !c.roundsUntil(10, certified(b)) {
+			return done()
+		}
+		qc, _ := c.byzQC(byz, b)
+		chain = append(chain, b)
+		qcs = append(qcs, qc)
+		parent, parentQC = b, qc
+	}
+	X, P, Q := chain[0], chain[1], chain[2]
+	_ = P
+	phase("XPQ")
+	// view 4: R to replicas 1 and 2; replica 2 may fetch Q and P from the leader, but not X
+	st.refuse[X.Hash()] = true
+	R := hotstuff.NewBlock(Q.Hash(), qcs[2], c.byzBatch(byz), 4, byz.ID)
+	propose(R, H1, H2)
+	if !c.roundsUntil(10, certified(R)) {
+		return done()
+	}
+	qcR, _ := c.byzQC(byz, R)
+	phase("R")
+	// view 5: S to replica 1 only: it commits X and P
+	S := hotstuff.NewBlock(R.Hash(), qcR, c.byzBatch(byz), 5, byz.ID)
+	propose(S, H1)
+	c.roundsUntil(6, func() bool { return len(c.Mon.commits[H1.Idx]) >= 2 })
+	phase("S")
+	// everybody is brought to view 6: replica 3 learns QC(R), then view 5 times out (the leader contributes its timeout)
+	delete(st.refuse, X.Hash())
+	for _, o := range []*Actor{H2, H3} {
+		c.enqueue(byz, o, hotstuff.NewViewMsg{ID: byz.ID, SyncInfo: hotstuff.NewSyncInfoWith(qcR)})
+	}
+	c.roundsUntil(4, func() bool { return H3.Node.VS.View() >= 5 && H2.Node.VS.View() >= 5 })
+	c.Cut = nil // the partition heals: timeouts reach everybody
+	for i := 0; i < 12 && (H1.Node.VS.View() < 6 || H2.Node.VS.View() < 6 || H3.Node.VS.View() < 6); i++ {
+		for _, a := range []*Actor{H1, H2, H3} {
+			if a.Node.VS.View() == 5 {
+				c.LocalTimeout(a)
+			}
+		}
+		vs, _ := byz.M.Auth.Sign(hotstuff.View(5).ToBytes())
+		tm := hotstuff.TimeoutMsg{ID: byz.ID, View: 5, ViewSignature: vs, SyncInfo: hotstuff.NewSyncInfoWith(qcR)}
+		for _, o := range []*Actor{H1, H2, H3} {
+			c.enqueue(byz, o, tm)
+		}
+		c.cmd.topUp()
+		c.lockstepRound(nil)
+		c.Step++
+		c.Mon.afterStep()
+	}
+	phase("view6")
+	// view 6: C extends X with QC(X) - conflicts with P
+	C := hotstuff.NewBlock(X.Hash(), qcs[0], c.byzBatch(byz), 6, byz.ID)
+	propose(C, H1, H2, H3)
+	if !c.roundsUntil(10, certified(C)) {
+		return done() // on a correct tree replica 2 is locked on P: C gets only one honest vote
+	}
+	phase("C-certified")
+	// views 7..10 on top of C
+	parent, parentQC = C, hotstuff.QuorumCert{}
+	parentQC, _ = c.byzQC(byz, C)
+	for v := 7; v <= 10; v++ {
+		b := hotstuff.NewBlock(parent.Hash(), parentQC, c.byzBatch(byz), hotstuff.View(v), byz.ID)
+		propose(b, H1, H2, H3)
+		if !c.roundsUntil(10, certified(b)) || len(c.Mon.Viol) > 0 {
+			return done()
+		}
+		parentQC, _ = c.byzQC(byz, b)
+		parent = b
+	}
+	return done()
+}
